@@ -1278,7 +1278,11 @@ pub fn c18(c: &Collector, g: &mut Guard) {
         }
     }
     // larger widths: default, empty, full, singletons, pairs from the edge set
-    for w in [13u32, 16, 17, 24, 80, 132, 140, 255, 256, 257, 264, 300, 1030, 1500, 5000] {
+    let mut widths: Vec<u32> = vec![13, 16, 17, 24, 80, 132, 140, 255, 256, 257, 264, 300, 1030, 1500];
+    if c.thorough() {
+        widths.push(5000);
+    }
+    for w in widths {
         let mut edge: Vec<u32> = vec![0, 1, 7, 8, 9, w - 2, w - 1];
         if w > 250 {
             edge.extend([127, 128, 254]);
